@@ -24,3 +24,5 @@ def run(prog, rep):
     r_io.run_growable(prog, rep)
     from ..rules import r_io as _rio2
     _rio2.run_swapped(prog, rep)
+    from ..rules import r_io as _rio3
+    _rio3.run_memtype(prog, rep)
